@@ -124,7 +124,7 @@ def run(ctx, model_ok=True):
             names = set(n for n, _c, _i in chunk)
             text = "".join(b for b, (n, _c, _i) in zip(body, expect) if n in names)
             text += "Eval vm_compute in [%s].\n" % "; ".join("r_" + n for n, _c, _i in chunk)
-            res = ctx.coq_eval(text, requires=COQ_REQ, tag="max")[0]
+            res = ctx.coq_eval(D.PRELUDE + text, requires=COQ_REQ, tag="max")[0]
             for (name, case, idx), (mx, order_ok) in zip(chunk, res):
                 got = None if mx is None else list(mx[1])
                 ctx.corr("outside_maximization", got == idx, "impl=%r model=%r" % (idx, got),
